@@ -73,6 +73,7 @@ class C05(Property):
     ID = "C05"
     SESSIONS = ["s0", "s1"]
     RUNS = {"quick": (4000, 1500), "thorough": (100000, 30000)}
+    MUST_REACH = {"probes": ["half_integer_tie", "flip_with_nonzero_shift_z", "dimension_file", "dimension_object_reused", "single_row_dimension_table", "inplace_false_copy", "restart_through_em_file", "gapped_index"], "faults": ["crash", "eio_read", "open_fail"]}
 
     def config(self, rng, tier, faulty):
         cfg = {
